@@ -837,14 +837,30 @@ def run_o15(chk, repo):
             if not (isinstance(c.args[0], ast.Name) and 'from' in c.args[0].id and isinstance(c.args[1], ast.Name)
                     and 'to' in c.args[1].id):
                 continue
-            try:
-                e = reach.expand_expr(cfg, nd.id, c.args[2], depth=3)
-            except TypeError:
-                e = reach.expand_expr(cfg, nd.id, c.args[2])
+            def expand(nid_, x_):
+                try:
+                    return reach.expand_expr(cfg, nid_, x_, depth=3)
+                except TypeError:
+                    return reach.expand_expr(cfg, nid_, x_)
+            alts = [expand(nd.id, c.args[2])]
+            if isinstance(alts[0], ast.Name):
+                # several definitions reach the call (`x = term / A; if cur != 0: x = x + cur`): each one is a flow given
+                alts = [expand(i_, v_) for i_, v_ in (reach.values(cfg, nd.id, alts[0].id) or [])] or alts
+            for e in alts:
+                _o15_one(chk, O15, sm, f, c, e, INEXACT)
+                n += 1 if 'term' in unparse(e) else 0
+    if n < 2:
+        raise AnalysisError(f'O15: only {n} recovered between-compartment flows found')
+
+
+def _o15_one(chk, O15, sm, f, c, e, INEXACT):
+    import sympy
+    from sa import tables as T_
+    if True:
+        if True:
             txt = unparse(e)
             if 'term' not in txt:
-                continue
-            n += 1
+                return
             bad_call = next((x for x in ast.walk(e) if isinstance(x, ast.Call) and isinstance(x.func, ast.Attribute)
                              and x.func.attr in INEXACT), None)
             if bad_call is not None:
@@ -854,7 +870,7 @@ def run_o15(chk, repo):
                               f'only for a term that is linear in the amount', line=c.lineno,
                               witness='dA1/dt = -VM*A1/(KM + A1), dA2/dt = VM*A1/(KM + A1) - K*A2: the recovered flow A1 -> A2 is '
                                       'VM, and the equations of the recovered system differ from the input')
-                continue
+                return
             env = {k: sympy.Symbol(k) for k in ('term', 'comp_func', 'current_flow')}
 
             class _Flow(ast.NodeTransformer):
@@ -878,5 +894,3 @@ def run_o15(chk, repo):
                               'the flow given to the builder, times the amount of the source compartment, is not the term it was '
                               'recovered from', line=c.lineno,
                               witness='any two-compartment system: eqs(to_compartmental_system(eqs)) != eqs')
-    if n < 2:
-        raise AnalysisError(f'O15: only {n} recovered between-compartment flows found')
